@@ -378,27 +378,16 @@ Section To.
       let elems := fix elems (et : gotype) (l : list robj) : res (list goval) :=
         match l with
         | [] => Ok []
-        | x :: r => do tvx <- to_go f false et x ;; do g <- place et tvx ;; do gs <- elems et r ;; Ok (g :: gs)
-        end in
-      (* array elements: converted in order; the element at an index beyond the array length panics *)
-      let aelems := fix aelems (et : gotype) (room : nat) (l : list robj) {struct l} : res (list goval) :=
-        match l with
-        | [] => Ok []
         | x :: r => do tvx <- to_go f false et x ;;
-                    match room with
-                    | O => Panic                                                   (* arrayElem.Index(i): out of range *)
-                    | S room' => do g <- place et tvx ;; do gs <- aelems et room' r ;; Ok (g :: gs)
-                    end
+                    do g <- (match tvx with None => Ok (zero et) | Some _ => place et tvx end) ;;   (* nil element: the zero value *)
+                    do gs <- elems et r ;; Ok (g :: gs)
         end in
       let entries := fix entries (et : gotype) (m : list (str * robj)) : res (list (str * goval)) :=
         match m with
         | [] => Ok []
         | (k, x) :: r => do tvx <- to_go f false et x ;;
-                         (* SetMapIndex with the zero Value deletes the key *)
-                         match tvx with
-                         | None => entries et r
-                         | Some _ => do g <- place et tvx ;; do gs <- entries et r ;; Ok ((k, g) :: gs)
-                         end
+                         do g <- (match tvx with None => Ok (zero et) | Some _ => place et tvx end) ;;   (* nil value: the zero value *)
+                         do gs <- entries et r ;; Ok ((k, g) :: gs)
         end in
       match under t with
       | TBool => match o with RBool b => Ok (Some (TBool, GBool b)) | _ => Err end
@@ -433,7 +422,8 @@ Section To.
       | TArray n et =>
           match o with
           | RList l =>
-              do gs <- aelems et n l ;; Ok (Some (TArray n et, GArray (gs ++ repeat (zero et) (n - length l))))
+              if Nat.ltb n (length l) then Err                                     (* the list does not fit the array *)
+              else do gs <- elems et l ;; Ok (Some (TArray n et, GArray (gs ++ repeat (zero et) (n - length l))))
           | _ => Err
           end
       | TMap et =>
@@ -540,6 +530,23 @@ Definition get_attr (h : heap) (o : robj) (name : str) : res robj :=
   | _ => Err
   end.
 
+(* Proxy.SetAttr: what field.Set stores for the converter's result (dt, v) in a field of type ft.  The converter of
+   a struct-typed field (time.Time included) works on the pointer type: the pointed-to struct is stored. *)
+Definition field_store (h : heap) (ft dt : gotype) (v : goval) : res goval :=
+  match ft, dt with
+  | TStruct _ _, TPtr et | TTime, TPtr et =>
+      match v with
+      | GNil => Ok (zero ft)                                          (* rv.IsNil(): SetZero *)
+      | GBox x => if assignable ft et then Ok x else Panic
+      | GRef c p => match heap_get h c p with
+                    | Some (GBox x) | Some x => if assignable ft et then Ok x else Panic
+                    | None => Panic
+                    end
+      | _ => Panic
+      end
+  | _, _ => if assignable ft dt then Ok (match ft with TIface => GDyn dt v | _ => v end) else Panic
+  end.
+
 (* returns the new heap; a write through a proxy that owns a private copy does not reach Go memory *)
 Definition set_attr (fuel : nat) (h : heap) (o : robj) (name : str) (x : robj) : res heap :=
   match o with
@@ -549,16 +556,11 @@ Definition set_attr (fuel : nat) (h : heap) (o : robj) (name : str) (x : robj) :
       | Some (i, ft) =>
           let ft' := match ft with TStruct _ _ | TTime => TPtr ft | _ => ft end in
           do r <- to_go h fuel true ft' x ;;
-          match r with
-          | None => match heap_set h c (p ++ [i]) (zero ft) with Some h' => Ok h' | None => Panic end   (* SetZero *)
-          | Some (dt, v) =>
-              if assignable ft dt then
-                match heap_set h c (p ++ [i]) (match ft with TIface => GDyn dt v | _ => v end) with
-                | Some h' => Ok h'
-                | None => Panic
-                end
-              else Panic                                      (* reflect.Set: value not assignable *)
-          end
+          do g <- (match r with
+                   | None => Ok (zero ft)                                           (* SetZero *)
+                   | Some (dt, v) => field_store h ft dt v
+                   end) ;;
+          match heap_set h c (p ++ [i]) g with Some h' => Ok h' | None => Panic end
       end
   | RProxyOwn pt _ =>
       match field_index (struct_fields (under pt)) name 0 with
@@ -566,10 +568,11 @@ Definition set_attr (fuel : nat) (h : heap) (o : robj) (name : str) (x : robj) :
       | Some (i, ft) =>
           let ft' := match ft with TStruct _ _ | TTime => TPtr ft | _ => ft end in
           do r <- to_go h fuel true ft' x ;;
-          match r with
-          | None => Ok h
-          | Some (dt, v) => if assignable ft dt then Ok h else Panic
-          end
+          do g <- (match r with
+                   | None => Ok (zero ft)
+                   | Some (dt, v) => field_store h ft dt v
+                   end) ;;
+          Ok h
       end
   | RProxyNil _ => Panic
   | _ => Err
@@ -597,10 +600,10 @@ Fixpoint call_args (fuel : nat) (h : heap) (params : list gotype) (args : list r
   end.
 
 (* ---------- how WithGlobal hands a value to the script ---------- *)
-(* object.AsObjects: NewTypeConverter(reflect.TypeOf(v)).From(v); an untyped nil has no type at all *)
+(* object.AsObjects: an untyped nil is nil; otherwise NewTypeConverter(reflect.TypeOf(v)).From(v) *)
 Definition from_global (tvv : option (gotype * goval)) : res robj :=
   match tvv with
-  | None => Panic                                             (* reflect.TypeOf(nil).Kind(): nil pointer dereference *)
+  | None => Ok RNil                                           (* case nil: result[k] = Nil *)
   | Some (t, v) => from_go false t v
   end.
 
